@@ -32,7 +32,7 @@ Definition delete_modes_from_active (active ps : list nat) : list nat :=
 
 (* ------------------------------------------------------------------ results *)
 Inductive error :=
-| EInactiveModes      (* ValueError: some modes of the instruction are not active *)
+| EInactiveModes      (* InactiveModes(InvalidModes, ValueError): modes already measured *)
 | ECondition          (* PiquassoException: the condition raised *)
 | EShotsNone          (* InvalidParameter: measurement does not support shots=None *)
 | EStep (code : Z).   (* whatever the simulation step (or parameter resolution) raised *)
@@ -122,8 +122,35 @@ Section Executor.
 
   Definition initial (s0 : St) (d : nat) : list branch := [mkB s0 [] 1%Q (seq 0 d)].
 
+  (* api/simulator.py:_validate_active_modes (repaired executor: run before any evolution).
+     The modes a measurement removes do not depend on outcomes, so the walk over the
+     register is done beforehand; an instruction without modes addresses all active modes
+     (the NUMBER_OF_MODES test for that case is not modelled: C13) *)
+  Fixpoint validate_active (prog : list Ins) (active : list nat) : bool :=
+    match prog with
+    | [] => true
+    | i :: rest =>
+        let ms := modes_of i in
+        forallb (fun m => memb m active) ms &&
+        validate_active rest
+          (if is_meas i
+           then match ms with [] => [] | _ => filter (fun m => negb (memb m ms)) active end
+           else active)
+    end.
+
+  (* api/simulator.py:_validate_shots_none_support (before any evolution) *)
+  Definition shots_none_supported (prog : list Ins) (shots : option Z) : bool :=
+    match shots with
+    | Some _ => true
+    | None => negb (existsb (fun i => is_meas i && negb (none_ok i)) prog)
+    end.
+
+  (* api/simulator.py:execute_instructions after the repair: validation first (an invalid
+     program raises before any simulation step runs), then the loop *)
   Definition execute (prog : list Ins) (shots : option Z) (s0 : St) (d : nat) :=
-    exec prog shots (seq 0 d) (initial s0 d).
+    if negb (validate_active prog (seq 0 d)) then Err EInactiveModes
+    else if negb (shots_none_supported prog shots) then Err EShotsNone
+    else exec prog shots (seq 0 d) (initial s0 d).
 
   (* ---------------------------------------------------------------- api/result.py *)
   (* Result.samples before the shuffle: [outcome] * int(frequency * shots) per branch *)
